@@ -37,7 +37,7 @@ class LagTime(ModelFeature):
 
     def __eq__(self, other):
         if isinstance(other, LagTime):
-            return set(self.modes) == set(other.modes)
+            return set(self.eval.modes) == set(other.eval.modes)
         else:
             return False
 
